@@ -25,7 +25,7 @@ Alphabet ==
     [] AlphaName = "seqas" -> {One, X} \cup Ops({"(", ")", ",", ";", "=", "+", "+="})
     [] AlphaName = "ops"   -> {One, X} \cup Ops(PlainBinOps \cup PrefixOps)
     [] AlphaName = "assign"-> {One, X, Y} \cup Ops(AssignOps \cup {"+", ";"})
-    [] AlphaName = "call"  -> {One, StrT, X, F} \cup Ops({"(", ")", ",", "-", "^", "*"})
+    [] AlphaName = "call"  -> {One, StrT, X, F, TId(<<108, 101, 110>>)} \cup Ops({"(", ")", ",", "-", "^", "*"})   \* len: a builtin name
     [] AlphaName = "idents"-> {X, Y, F} \cup Ops({"=", "+=", ";", ",", "(", ")", "+"})       \* two variable names: order of occurrences
     [] AlphaName = "wide"  -> {One, TrueT, X, Y, F} \cup Ops({"-", "!", "^", "%", "-", "==", "&&", "||", "=", "*=", "(", ")", ",", ";"})
 
